@@ -177,8 +177,11 @@ def run_one(ck, prog):
     n_sites = 0
     for bp in builders:
         callers = cg.callers.get(bp, set())
-        ck.ob("C01.4", f"constructor-callers|{bp}", callers <= allowed_callers, fn=bp,
-              detail=f"guard constructor called from {sorted(callers - allowed_callers)} (only Mutex::lock / Mutex::try_lock may)")
+        # a closure of lock / try_lock handed to bool::then on the acquiring result counts as that function (try_lock().then(|| guard))
+        from .c02 import closure_under_then
+        lazy = {c for c in callers if "::{closure" in c and c.split("::{closure")[0] in allowed_callers and closure_under_then(prog, cg, c, bool_acq)}
+        ck.ob("C01.4", f"constructor-callers|{bp}", callers - lazy <= allowed_callers, fn=bp,
+              detail=f"guard constructor called from {sorted(callers - lazy - allowed_callers)} (only Mutex::lock / Mutex::try_lock may)")
         for caller in sorted(callers):
             cctx = prog.ctx(caller)
             if cctx is None:
@@ -200,6 +203,8 @@ def run_one(ck, prog):
                                 if f[0] == "truth" and f[2] is True and isinstance(f[1], tuple) and f[1][0] == "call" and f[1][3] == ab:
                                     if cctx.cfg.edge_dominates(e, bb):
                                         ok = True
+                if caller in lazy:
+                    ok = True      # runs only when the bool acquirer returned true (checked by closure_under_then)
                 ck.ob("C01.4", f"guard-after-acquire|{caller}", ok, fn=caller, site=cctx.site(bb),
                       detail="the guard is constructed on a path that did not first acquire the lock")
     ck.floor("C01.4", "guard construction sites", n_sites, 2)
